@@ -138,8 +138,14 @@ pub fn instantiate(c: &TcpLaw) -> Option<TcpObservation> {
     let d = s.db();
     // the quirk field is a set: an instance may carry it in any order
     let mut quirks = d.quirks;
-    if quirks.len() > 1 {
-        match ch(c, 8) % 3 {
+    if !quirks.is_empty() {
+        match ch(c, 8) % 4 {
+            3 => {
+                // the same set with one entry repeated (the analyzer itself emits `ecn` twice for ECT + ECE/CWR)
+                let k = ch(c, 9) as usize % quirks.len();
+                let q = quirks[k].clone();
+                quirks.push(q);
+            }
             1 => {
                 let k = ch(c, 9) as usize % quirks.len();
                 quirks.rotate_left(k)
@@ -219,7 +225,17 @@ pub fn check_tcp_law(c: &TcpLaw, st: &mut Stats) -> Result<(), Fail> {
                 !matches!((p.version, q), (dt::IpVersion::V6, Df | NonZeroID | ZeroID | MustBeZero) | (dt::IpVersion::V4, FlowID))
             };
             let all: Vec<dt::Quirk> = (0..17u8).map(sig::quirk_db).filter(|q| relevant(q)).collect();
-            if how % 2 == 0 || p.quirks.is_empty() {
+            if how % 3 == 2 && p.quirks.len() >= 2 {
+                // same length, other set: one entry is replaced by a copy of another one
+                let i = idx(how, p.quirks.len());
+                let j = (i + 1 + idx(how / 3, p.quirks.len() - 1)) % p.quirks.len();
+                let removed = p.quirks[i].clone();
+                p.quirks[i] = p.quirks[j].clone();
+                if p.quirks.contains(&removed) || !relevant(&removed) {
+                    return Ok(());
+                }
+                st.class("perturb:quirks-replaced-by-duplicate");
+            } else if how % 2 == 0 || p.quirks.is_empty() {
                 let absent: Vec<&dt::Quirk> = all.iter().filter(|q| !p.quirks.contains(q)).collect();
                 if absent.is_empty() {
                     return Ok(());
